@@ -99,23 +99,37 @@ def k1_bounds(t: int, has_min: bool, vmin: Optional[int], pmin: int, has_max: bo
 
 
 # ---- K1b: date-valued bounds ----------------------------------------------------------------------
-def k1_dates(dmin: int, dmax: int, pmin: int) -> bool:
+def k1_dates(dmin: int, dmax: int, pmin: int, type_pos: int) -> bool:
     """
     pre: ABSENT <= dmin < len(DATES) and ABSENT <= dmax < len(DATES)
-    pre: 0 <= pmin < 4
+    pre: 0 <= pmin < 4 and 0 <= type_pos < 3
     post: __return__
     """
+    # the order of keys in a hand-written file is arbitrary: type first, in the middle or last
     c = OrderedDict()
-    c['type'] = 'date'
+    if type_pos == 0:
+        c['type'] = 'date'
     if dmin != ABSENT:
         c['min'] = DATES[dmin] if PRECS[pmin] is None else {'value': DATES[dmin], 'precision': PRECS[pmin]}
+    if type_pos == 1:
+        c['type'] = 'date'
     if dmax != ABSENT:
         c['max'] = DATES[dmax]
-    return _roundtrip_ok({'when': c})
+    if type_pos == 2:
+        c['type'] = 'date'
+    ok = _roundtrip_ok({'when': c})
+    # and the loaded bounds are datetimes whatever the key order (so that they compare with the data)
+    D = _load({'fields': {'when': c}})
+    for k, i in (('min', dmin), ('max', dmax)):
+        if i != ABSENT and DATES[i] is not None:
+            import datetime
+            if not isinstance(D['when'][k].value, datetime.datetime):
+                return False
+    return ok
 
 
-def lift_dates(dmin, dmax, pmin):
-    return k1_dates(dmin, dmax, pmin)
+def lift_dates(dmin, dmax, pmin, type_pos):
+    return k1_dates(dmin, dmax, pmin, type_pos)
 
 
 # ---- K1c: the other kinds ---------------------------------------------------------------------------
@@ -244,7 +258,7 @@ def _obs():
                           param={'unk': unk, 'hash': hk}, timeout=300))
     obs.append(Ob('K1', 'k1_dates', 'date-typed bounds: dict -> object -> dict is a fixpoint after one load, for '
                   'null and every accepted spelling of the bound',
-                  'min/max over {absent, null, %d date/datetime spellings}; precision 4-way' % (len(DATES) - 1),
+                  'min/max over {absent, null, %d date/datetime spellings}; precision 4-way; the type key first, between or after the bounds' % (len(DATES) - 1),
                   timeout=300))
     obs.append(Ob('K1', 'k1_others', 'sign / max_nulls / no_duplicates / lengths round-trip exactly (fixpoint, '
                   'standard order), null values included',
